@@ -37,3 +37,23 @@ package cmdrunner
 //@   ensures old(cmd.Stdout) != nil ==> result1 != nil   [C19.once]
 //@   ensures cmd.Stdout != nil || cmd.Stdout == old(cmd.Stdout)
 //@   ensures launches == old(launches)
+
+// The force kill of both runners is an unconditional kill (SIGKILL) of the recorded process (C04, C05)
+
+//@ func (*cmdrunner.CmdRunner).Kill
+//@   nopanic [C04.force] [C05.kill]
+//@   nonblocking
+//@   requires c.cmd != nil
+//@   modifies proc_kills
+//@   at call (*os.Process).Kill#1 assert recv == c.cmd.Process   [C04.force] [C05.kill]
+//@   ensures c.cmd.Process != nil ==> proc_kills[c.cmd.Process] == old(proc_kills)[c.cmd.Process] + 1   [C04.force] [C05.kill]
+//@   ensures c.cmd.Process == nil ==> result == nil && proc_kills == old(proc_kills)   [C04.force]
+
+//@ func (*cmdrunner.CmdAttachedRunner).Kill
+//@   nopanic [C04.force] [C15.kill]
+//@   nonblocking
+//@   requires c.process != nil
+//@   modifies proc_kills
+//@   at call (*os.Process).Kill#1 assert recv == c.process   [C04.force] [C15.kill]
+//@   ensures proc_kills[c.process] == old(proc_kills)[c.process] + 1   [C04.force] [C15.kill]
+
